@@ -57,6 +57,8 @@ type BlkDef struct {
 	Parent int      `json:"parent"`
 	Txs    []int    `json:"txs"`
 	Cbouts []OutDef `json:"cbouts"`
+	Dt     int      `json:"dt"`   // seconds after the parent's timestamp (0 = 600 + block id)
+	Work   int      `json:"work"` // proof of work in units of the minimum difficulty (0 = 1); checked against the bits the retarget rule yields
 }
 
 // Scenario: TLC prints functions with a 1..n domain as arrays and others as objects keyed by decimal strings.
@@ -135,6 +137,9 @@ type World struct {
 	BlkID       map[[32]byte]int // real block hash -> abstract block id (0 = base tip, -h = base block of height h)
 	baseTipHash *btc.Uint256
 	baseTipTime uint32
+	baseTimes   []uint32       // timestamps by height, 0 = genesis
+	blkTime     map[int]uint32 // scenario blocks
+	blkBits     map[int]uint32
 }
 
 func tag(addr int) []byte { return []byte{0xad, byte(addr >> 16), byte(addr >> 8), byte(addr)} }
@@ -543,10 +548,13 @@ func NewWorldExt(sc Scenario, dir string, o WorldOpts) (*World, error) {
 	compress := o.Compress
 	btc.EcdsaSignWithRFC6979 = true // deterministic signatures: every process rebuilds identical transactions
 	w := &World{Sc: sc, Genesis: GenesisHash, Compress: compress, Pad: o.Pad, baseTx: map[int]*btc.Tx{}, txs: map[int]*btc.Tx{}, blocks: map[int][]byte{},
-		blkHash: map[int]*btc.Uint256{}, TxID: map[[32]byte]int{}, BlkID: map[[32]byte]int{}}
+		blkHash: map[int]*btc.Uint256{}, TxID: map[[32]byte]int{}, BlkID: map[[32]byte]int{}, blkTime: map[int]uint32{}, blkBits: map[int]uint32{}}
 	w.GenesisTime = o.GenesisTime
 	if w.GenesisTime == 0 {
 		w.GenesisTime = uint32(time.Now().Unix()) - 5*24*3600
+		if sc.BaseH >= 2000 {
+			w.GenesisTime = uint32(time.Now().Unix()) - 21*24*3600 // room for a block stamped two weeks after the base tip
+		}
 	}
 	w.BaseDir = filepath.Join(dir, "base")
 	reuse := false
@@ -575,8 +583,14 @@ func NewWorldExt(sc Scenario, dir string, o WorldOpts) (*World, error) {
 	}
 	parent := GenesisHash.Hash
 	ts := w.GenesisTime
+	spacing := uint32(600)
+	if sc.BaseH >= 2000 {
+		spacing = 150 // retarget scenarios: a fast first period, so that the first retarget quadruples the difficulty
+	}
+	w.baseTimes = []uint32{w.GenesisTime}
 	for h := 1; h <= sc.BaseH; h++ {
-		ts += 600
+		ts += spacing
+		w.baseTimes = append(w.baseTimes, ts)
 		cb := coinbaseTxPad(uint32(h), h, []OutDef{{Amt: Amt{U: 50}, Addr: 0, St: StP2SH}}, nil, o.Pad)
 		raw := MakeBlock(0x20000000, parent, ts, MinBits, []*btc.Tx{cb})
 		if n != nil {
@@ -662,7 +676,20 @@ func NewWorldExt(sc Scenario, dir string, o WorldOpts) (*World, error) {
 		cb := coinbaseTx(height, 1000+b, d.Cbouts, WitnessCommitment(txs))
 		w.TxID[cb.Hash.Hash] = CbBase + b
 		w.txs[CbBase+b] = cb
-		raw := MakeBlock(0x20000000, ph, pt+600+uint32(b), MinBits, append([]*btc.Tx{cb}, txs...))
+		bts := pt + 600 + uint32(b)
+		if d.Dt != 0 {
+			bts = pt + uint32(d.Dt)
+		}
+		bits := w.requiredBits(d.Parent, height, bts)
+		work := d.Work
+		if work == 0 {
+			work = 1
+		}
+		if got := workOf(bits); got != work {
+			return fmt.Errorf("scenario block %d: the retarget rule gives bits %08x = work %d, the scenario says %d", b, bits, got, work)
+		}
+		w.blkTime[b], w.blkBits[b] = bts, bits
+		raw := MakeBlock(0x20000000, ph, bts, bits, append([]*btc.Tx{cb}, txs...))
 		w.blocks[b] = raw
 		w.blkHash[b] = btc.NewSha2Hash(raw[:80])
 		w.BlkID[w.blkHash[b].Hash] = b
@@ -677,6 +704,69 @@ func NewWorldExt(sc Scenario, dir string, o WorldOpts) (*World, error) {
 		build(id, 0)
 	}
 	return w, nil
+}
+
+var maxTarget = new(big.Int).Lsh(big.NewInt(0x7fffff), 8*29)
+
+func workOf(bits uint32) int {
+	t := btc.SetCompact(bits)
+	if t.Sign() <= 0 {
+		return 0
+	}
+	q := new(big.Int).Div(new(big.Int).Add(maxTarget, new(big.Int).Rsh(t, 1)), t)
+	return int(q.Int64())
+}
+
+// timeAndBitsAt: timestamp and bits of the ancestor-or-self of scenario block b (0 = base tip) at the given height.
+func (w *World) timeAndBitsAt(b int, height uint32) (uint32, uint32) {
+	for b != 0 {
+		if w.heightOf(b) == height {
+			return w.blkTime[b], w.blkBits[b]
+		}
+		b = w.Sc.Blk[b].Parent
+	}
+	return w.baseTimes[height], MinBits
+}
+
+// requiredBits: the target a block of the given height and timestamp must carry on top of scenario block
+// `parent` - the rule of lib/chain for a chain whose genesis hash marks it as testnet4 (2016-block periods,
+// 20-minute rule, BIP94 base), written here independently over math/big.
+func (w *World) requiredBits(parent int, height uint32, ts uint32) uint32 {
+	const interval, span = 2016, 14 * 24 * 3600
+	if height < 2 {
+		return MinBits
+	}
+	pTime, pBits := w.timeAndBitsAt(parent, height-1)
+	lastReal := func() uint32 { // walk back over min-difficulty blocks to the start of the period
+		h := height - 1
+		_, bits := pTime, pBits
+		for h > 0 && h%interval != 0 && bits == MinBits {
+			h--
+			_, bits = w.timeAndBitsAt(parent, h)
+		}
+		return bits
+	}
+	if height%interval != 0 {
+		if ts > pTime+1200 {
+			return MinBits
+		}
+		return lastReal()
+	}
+	firstTime, _ := w.timeAndBitsAt(parent, height-interval)
+	actual := int64(pTime) - int64(firstTime)
+	if actual < span/4 {
+		actual = span / 4
+	}
+	if actual > span*4 {
+		actual = span * 4
+	}
+	t := btc.SetCompact(lastReal())
+	t.Mul(t, big.NewInt(actual))
+	t.Div(t, big.NewInt(span))
+	if t.Cmp(maxTarget) > 0 {
+		t = maxTarget
+	}
+	return btc.GetCompact(t)
 }
 
 func (w *World) heightOf(b int) uint32 {
